@@ -10,7 +10,7 @@ for d in seeded/C*/; do
   n=$(basename "$d"); p=${n:0:3}
   for s in "${seeds[@]}"; do
     ( VERIF_SEED=$s CUT=120 LINES_MAX=2 tools/try_patch.sh "$d/patch.diff" "$p" >/dev/null 2>&1; echo $? > "$tmp/$n.$s" ) &
-    while [ $(jobs -r | wc -l) -ge 4 ]; do sleep 1; done
+    while [ $(jobs -r | wc -l) -ge ${JOBS:-4} ]; do sleep 1; done
   done
 done
 wait
